@@ -324,8 +324,16 @@ func (u *Unit) stmt(st *State, s ast.Stmt, c *Ctl, k func(*State)) {
 	case *ast.GoStmt:
 		// the spawned body is a separate unit; arguments are evaluated here
 		ev := u.ev(st, x.Pos())
+		var goArgs []Value
 		for _, a := range x.Call.Args {
-			ev.expr(a)
+			goArgs = append(goArgs, ev.expr(a))
+		}
+		// the arguments handed to the spawned function are visible to "call go#k: assert ..." as arg_<param> / arg0..
+		var goNames []string
+		if sig, ok := u.pkg.TypesInfo.TypeOf(x.Call.Fun).(*types.Signature); ok {
+			for i := 0; i < sig.Params().Len(); i++ {
+				goNames = append(goNames, sig.Params().At(i).Name())
+			}
 		}
 		if lit, isLit := ast.Unparen(x.Call.Fun).(*ast.FuncLit); isLit {
 			// variables of the enclosing function that the spawned body assigns may change at any time from now on
@@ -336,7 +344,7 @@ func (u *Unit) stmt(st *State, s ast.Stmt, c *Ctl, k func(*State)) {
 			}
 		}
 		u.ghostAt(st, "go#"+fmt.Sprint(u.goOrdOf(x)), x.Pos())
-		u.callSiteClauses(ev, "go#"+fmt.Sprint(u.goOrdOf(x)), nil, nil, nil)
+		u.callSiteClauses(ev, "go#"+fmt.Sprint(u.goOrdOf(x)), goNames, goArgs, nil)
 		u.assumeNote("go statements: the spawned body is verified as its own unit or not at all; no interleaving semantics")
 		k(st)
 	case *ast.SendStmt:
